@@ -1,6 +1,7 @@
 import MosnVerif.Lemmas.Headers
 import MosnVerif.Lemmas.Retry
 import MosnVerif.Lemmas.RouteFinalize
+import MosnVerif.Lemmas.HeaderWiring
 /-!
 # C17 — route actions, timeouts and the retry policy are applied exactly as configured (property theorems only)
 
@@ -423,5 +424,90 @@ example : exReq.path = some (String.ofList ((exRoute "/v2" "/api").matched.toLis
 example : rewrites (exRoute "/svc" "/v2") (specPath (exRoute "/v2" "/api") exReq.path) = true := by decide
 
 end Finalize
+
+/-! ## Part 4 — the parsers are built from the configured fields of their own direction (construction wiring) -/
+section Wiring
+open MosnVerif.Model.HeaderWiring MosnVerif.Gen.HeaderWiring
+
+/-- **wiring_is_diagonal**: in the table regenerated from `NewConfigImpl` / `NewVirtualHostImpl` / `NewRouteRuleImplBase`,
+every level's request parser is built from (request_headers_to_add, request_headers_to_remove) and its response parser from
+(response_headers_to_add, response_headers_to_remove) of that level's own configuration object; no slot is missing. -/
+theorem wiring_is_diagonal (lv : Level) (d : Dir) : lookup parserWiring lv d = some (diagonalRow lv d) :=
+  lookup_parserWiring lv d
+
+/-- `getHeaderParser` (regenerated nil rule) only returns the nil parser when neither list is configured -/
+theorem nil_parser_only_when_unconfigured (addsNil removesNil : Bool) (h : parserIsNil addsNil removesNil = true) :
+    addsNil = true ∧ removesNil = true := parserIsNil_sound _ _ h
+
+/-- **response_headers_spec**: for EVERY three-level configuration (four independent fields per level, nil or not) and every
+incoming response header map, after `FinalizeResponseHeaders` of a rule built from that configuration the value of every
+header name is the fold of exactly the RESPONSE-direction mutations naming it — route, then virtual host, then router
+configuration (the regenerated `responseOrder`); per level the additions in configured order (append joins onto a non-empty
+value, otherwise overwrite), then that level's response removals.  No request-direction field occurs on the right. -/
+theorem response_headers_spec (c : Config) (h : Hdrs) (k : String) :
+    get (finalizeResponseHeaders c h) k = specValue (specOps (dirLevels c .response)) k (get h k) := by
+  unfold finalizeResponseHeaders
+  rw [finalizeDir_eq, headers_spec_response]
+
+/-- the request direction, built from configuration -/
+theorem request_headers_spec (c : Config) (h : Hdrs) (k : String) :
+    get (finalizeRequestMutations c h) k = specValue (specOps (dirLevels c .request)) k (get h k) := by
+  unfold finalizeRequestMutations
+  rw [finalizeDir_eq, headers_spec_request]
+
+/-- two configurations agree on the fields of direction `d` at every level -/
+def sameDirection (c c' : Config) : Dir → Prop
+  | .request => ∀ lv, (c.at lv).requestHeadersToAdd = (c'.at lv).requestHeadersToAdd ∧
+      (c.at lv).requestHeadersToRemove = (c'.at lv).requestHeadersToRemove
+  | .response => ∀ lv, (c.at lv).responseHeadersToAdd = (c'.at lv).responseHeadersToAdd ∧
+      (c.at lv).responseHeadersToRemove = (c'.at lv).responseHeadersToRemove
+
+/-- **direction_isolation**: whatever is configured for the request direction (at any level) has no effect on responses … -/
+theorem direction_isolation (c c' : Config) (hs : sameDirection c c' .response) (h : Hdrs) :
+    finalizeResponseHeaders c h = finalizeResponseHeaders c' h := by
+  unfold finalizeResponseHeaders
+  rw [finalizeDir_eq, finalizeDir_eq]
+  have h1 := hs .route; have h2 := hs .vhost; have h3 := hs .router
+  simp only [Config.at] at h1 h2 h3
+  simp only [dirLevels, h1.1, h1.2, h2.1, h2.2, h3.1, h3.2]
+
+/-- … and vice versa -/
+theorem direction_isolation_request (c c' : Config) (hs : sameDirection c c' .request) (h : Hdrs) :
+    finalizeRequestMutations c h = finalizeRequestMutations c' h := by
+  unfold finalizeRequestMutations
+  rw [finalizeDir_eq, finalizeDir_eq]
+  have h1 := hs .route; have h2 := hs .vhost; have h3 := hs .router
+  simp only [Config.at] at h1 h2 h3
+  simp only [dirLevels, h1.1, h1.2, h2.1, h2.2, h3.1, h3.2]
+
+-- non-vacuity: two configurations that differ in every request field and agree on the response direction
+def exCfg : Config :=
+  { route := { responseHeadersToAdd := some [⟨"server", "mosn", false⟩] },
+    vhost := { responseHeadersToRemove := some ["x-internal"], requestHeadersToRemove := some ["server"] },
+    router := { responseHeadersToAdd := some [⟨"x-via", "m", true⟩], requestHeadersToAdd := some [⟨"x-internal", "1", true⟩] } }
+def exCfg' : Config :=
+  { route := { responseHeadersToAdd := some [⟨"server", "mosn", false⟩], requestHeadersToRemove := some ["x-via"] },
+    vhost := { responseHeadersToRemove := some ["x-internal"] },
+    router := { responseHeadersToAdd := some [⟨"x-via", "m", true⟩] } }
+example : sameDirection exCfg exCfg' .response := by intro lv; cases lv <;> exact ⟨rfl, rfl⟩
+example : isDiagonal parserWiring = true := by decide
+-- tests (evaluated): a virtual host configuring ONLY response removals gets a parser and the removal is applied;
+-- its request removal of `server` does not touch the response
+#guard get (finalizeResponseHeaders exCfg [("x-internal", "7"), ("server", "up"), ("x-via", "a")]) "x-internal" == none
+#guard get (finalizeResponseHeaders exCfg [("x-internal", "7"), ("server", "up"), ("x-via", "a")]) "server" == some "mosn"
+#guard get (finalizeResponseHeaders exCfg [("x-internal", "7"), ("server", "up"), ("x-via", "a")]) "x-via" == some "a,m"
+#guard get (finalizeRequestMutations exCfg [("x-internal", "7"), ("server", "up")]) "server" == none
+#guard get (finalizeRequestMutations exCfg [("x-internal", "7"), ("server", "up")]) "x-internal" == some "7,1"
+
+/-- negation witness: with the crossed table (virtual-host response parser fed the REQUEST removals) the table is not
+diagonal, the response spec fails — the configured response removal is not applied, a request removal is applied to the
+response — and, for a virtual host that only configures response removals, no parser is built at all -/
+example : isDiagonal crossedWiring = false := by decide
+example : get (finalizeDir crossedWiring responseOrder exCfg .response [("x-internal", "7"), ("server", "up")]) "x-internal"
+    ≠ specValue (specOps (dirLevels exCfg .response)) "x-internal" (some "7") := by decide
+example : (builtParser crossedWiring exCfg' .vhost .response).isNone = true := by decide
+example : (builtParser parserWiring exCfg' .vhost .response).isSome = true := by decide
+
+end Wiring
 
 end MosnVerif.Props.C17
